@@ -51,10 +51,10 @@ def _check_tmp_create(ctx, s):
         ok = False
     # the created path is the path that is returned (share_base argument)
     la = {(l.kind, l.bb) for l in C.trace(tr, obj["args"][0])}
-    sb = calls_to(tr, ROLE["share_base"])
+    sb = resolved_path_sites(tr)
     lb = set()
-    for sbb, st in sb:
-        lb |= {(l.kind, l.bb) for l in C.trace(tr, st["args"][1])}
+    for sbb, sb_op in sb:
+        lb |= {(l.kind, l.bb) for l in C.trace(tr, sb_op)}
     if not la or not la <= lb:
         ctx.violation(["create_file-path", tr.name], "the path created by try_resolve is not the path it returns",
                       site=ctx.site(tr, bb))
@@ -219,11 +219,11 @@ def r06_1(ctx):
         if not ags:
             ctx.anchor_missing("CtxOut::Verify aggregate")
         for bb, st in ags:
-            flds = st["rv"]["agg"]["fields"]
-            i = flds.index("out") if "out" in flds else None
-            lv = C.trace(cn, st["rv"]["ops"][i], through_decorators=True,
-                         transparent=lambda t: C.is_transparent(t) or C.callee_name(t) in (
-                             "std::result::Result::<T, E>::map", "std::io::BufReader::<R>::new", "std::io::BufReader::<R>::with_capacity")) if i is not None else []
+            # every file handle that ends up inside the Verify context (directly, or inside a private cursor struct stored in it)
+            tr_h = lambda t: C.is_transparent(t) or C.callee_name(t) in (
+                "std::result::Result::<T, E>::map", "std::io::BufReader::<R>::new", "std::io::BufReader::<R>::with_capacity")
+            lv = [l for o in st["rv"]["ops"] for l in deep_leaves(cn, o, through_decorators=True, transparent=tr_h)
+                  if l.kind == "call" and re.match(r"^std::fs::(File|OpenOptions)::", C.callee_name(l.data) or "")]
             if lv and all(leaf_is_call(l, "std::fs::File::open") for l in lv):
                 ctx.ok("Verify.out<-File::open", site=ctx.site(cn, bb))
             else:
@@ -368,8 +368,10 @@ def r06_3(ctx):
         return
     p_out = cn.param_index_by_name("output_path")
     for bb, st in aggregates(cn, ADT["CtxOut"], "Verify"):
-        flds = st["rv"]["agg"]["fields"]
-        lv = C.trace(cn, st["rv"]["ops"][flds.index("rem")], through_decorators=True) if "rem" in flds else []
+        # the integer(s) stored in the Verify context (directly, or inside a private cursor struct): the remaining length
+        lv = [l for o in st["rv"]["ops"] for l in deep_leaves(cn, o, through_decorators=True)
+              if (l.kind == "call" and (C.callee_name(l.data) or "").startswith("std::fs::Metadata::")) or
+              (l.kind == "const" and re.match(r"^\d+_u(64|size)$", C.op_const(l.data) or "")) or l.kind == "binop"]
         good = bool(lv)
         for l in lv:
             if not leaf_is_call(l, "std::fs::Metadata::len"):
@@ -414,12 +416,14 @@ def r07_1(ctx):
                 ctx.violation([s.key()], "%s is reachable in Clean mode (clean must not execute commands / read includes)" % s.name, site=site)
             else:
                 ctx.ok("%s|%s|modes=%s" % (s.cls, s.key(), sorted(s.modes)), site=site)
-    for role_name, what in (("tag_create", "tag creation"), ("execute_in_collect_deps_mode", "dependency collection"), ("shell_run", "command execution")):
+    for role_name, what in (("tag_create", "tag creation"), ("get_txtpp_file", "dependency lookup"), ("shell_run", "command execution")):
         tgt = ROLE[role_name]
         cs = C.all_call_sites(lib, lambda ns, t: tgt in ns)
         if not cs:
             ctx.anchor_missing("call of %s" % tgt)
         for (b, bb, t) in cs:
+            if role_name == "get_txtpp_file" and b.name != ROLE["execute_directive"]:
+                continue        # resolve_inputs also looks sources up by their output name: that is input handling, in every mode
             m = mo.site_modes(b, bb)
             if "Clean" in m:
                 ctx.violation([b.name, tgt], "%s is reachable in Clean mode" % what, site=ctx.site(b, bb))
@@ -570,8 +574,8 @@ def r07_4(ctx):
         if not (mo.site_modes(b, bb) <= {"Clean"}) or not mo.site_modes(b, bb):
             continue
         n += 1
-        uses = forward_uses_ext(b, t["dest"]["l"])
-        if TRY in uses or "RETURN" in uses:
+        uses = forward_uses_ext(b, t["dest"]["l"], through_try=True)
+        if "RETURN" in uses:
             ctx.violation([b.name, "clean-error-propagated"], "an error from executing a directive in Clean mode is propagated (clean must succeed on "
                           "sources with directive errors)", site=ctx.site(b, bb))
         else:
@@ -995,28 +999,23 @@ def r09_4(ctx):
     if binp is None:
         ctx.anchor_missing("binary crate facts")
         return
-    ap = ctx.role(binp, "txtpp::Cli::apply_to")
+    ap = ctx.role(binp, "txtpp::main")
     if ap:
+        # (the whole front end is spliced into main: DESIGN §3.9) Mode values stored into Config.mode, by construction site
         found = {}
-        for bb, si, st in ap.stmts():
-            if st["k"] == "assign" and st["lhs"]["p"] and st["lhs"]["p"][-1].get("name") == "mode":
-                lv = C.trace(ap, st["rv"]["op"]) if st["rv"]["k"] == "use" else [C.Leaf("aggregate", bb, st["rv"])]
-                for l in lv:
-                    var = None
-                    if l.kind == "aggregate" and l.data["agg"]["k"] == "adt":
-                        var = l.data["agg"]["variant"]
-                        abb = l.bb
-                    if var:
-                        found[var] = abb
+        for bb, op, st in field_values(ap, CLI_CONFIG, "mode"):
+            lv = C.trace(ap, op) if op is not None else []
+            for l in lv:
+                if l.kind == "aggregate" and l.data["agg"]["k"] == "adt":
+                    found.setdefault(l.data["agg"]["variant"], []).append(l.bb if l.bb is not None else bb)
         need_true = C.guard_edges(ap, binp, lambda c, v, leaf: c.kind == "bool" and leaf is not None and leaf.kind == "field"
                                   and has_field([leaf], "needed") and v is True)
         need_false = C.guard_edges(ap, binp, lambda c, v, leaf: c.kind == "bool" and leaf is not None and leaf.kind == "field"
                                    and has_field([leaf], "needed") and v is False)
         ok = ("InMemoryBuild" in found and "Build" in found and need_true and need_false
-              and C.guarded(ap, found["InMemoryBuild"], need_true) and C.guarded(ap, found["Build"], need_false)
-              and set(found) == {"InMemoryBuild", "Build"})
+              and all(C.guarded(ap, x, need_true) for x in found["InMemoryBuild"]) and all(C.guarded(ap, x, need_false) for x in found["Build"]))
         if ok:
-            ctx.ok("Cli.needed true -> Mode::InMemoryBuild, false -> Mode::Build", site=ctx.site(ap, found["InMemoryBuild"]))
+            ctx.ok("Cli.needed true -> Mode::InMemoryBuild, false -> Mode::Build", site=ctx.site(ap, found["InMemoryBuild"][0]))
         else:
             ctx.violation(["cli-needed"], "the `needed` flag no longer selects InMemoryBuild/Build as documented: %s" % sorted(found), site=ctx.site(ap, 0))
     # clap: the Arg with id `needed` has short 'N'
@@ -1033,24 +1032,23 @@ def _cli_mode_map(ctx, want):
     if binp is None:
         ctx.anchor_missing("binary crate facts")
         return
-    ca = ctx.role(binp, "txtpp::Command::apply_to")
+    ca = ctx.role(binp, "txtpp::main")
     if not ca:
         return
     cmd_adt = next((p_ for p_ in binp.adts if p_.endswith("::Command") or p_ == "txtpp::Command"), None)
     if cmd_adt is None:
         ctx.anchor_missing("enum Command of the CLI")
         return
-    # every Mode value that can be stored into config.mode, with the block where it is built (the store itself may sit behind the
+    # every Mode value that can be stored into Config.mode, with the block where it is built (the store itself may sit behind the
     # match: `let (mode, flags) = match self { Clean {..} => (Mode::Clean, ..), .. }; config.mode = mode;`)
     built = []
-    for bb, si, st in ca.stmts():
-        if st["k"] == "assign" and st["lhs"]["p"] and st["lhs"]["p"][-1].get("name") == "mode":
-            lv = C.trace(ca, st["rv"]["op"]) if st["rv"]["k"] == "use" else [C.Leaf("aggregate", bb, st["rv"])]
-            for l in lv:
-                if l.kind == "aggregate" and l.data["agg"]["k"] == "adt":
-                    built.append((l.data["agg"]["variant"], l.bb if l.bb is not None else bb))
-                else:
-                    built.append(("?", bb))
+    for bb, op, st in field_values(ca, CLI_CONFIG, "mode"):
+        lv = C.trace(ca, op) if op is not None else []
+        for l in lv:
+            if l.kind == "aggregate" and l.data["agg"]["k"] == "adt":
+                built.append((l.data["agg"]["variant"], l.bb if l.bb is not None else bb))
+            elif l.kind != "field" or not any(o in CLI_CONFIG for (o, v, n) in C.pl_fields(l.data)):
+                built.append(("?", bb))         # (a field of another Config value: `..Config::default()`, judged where that one is built)
     e = enum_edges(ca, binp, cmd_adt, lambda vs: vs == {want})
     reg = C.exclusive_region(ca, e) if e else set()
     here = {v for v, abb in built if abb in reg}
@@ -1060,14 +1058,6 @@ def _cli_mode_map(ctx, want):
     else:
         ctx.violation(["cli-subcommand", want], "the `%s` subcommand stores %s into config.mode (Mode::%s expected), other arms store %s" % (
             want.lower(), sorted(here), want, sorted(elsewhere)), site=ctx.site(ca, min(reg) if reg else 0))
-    # and the top level (no subcommand) never selects it
-    ap = ctx.role(binp, "txtpp::Cli::apply_to")
-    if ap:
-        for bb, si, st in ap.stmts():
-            if st["k"] == "assign" and st["lhs"]["p"] and st["lhs"]["p"][-1].get("name") == "mode":
-                lv = C.trace(ap, st["rv"]["op"]) if st["rv"]["k"] == "use" else [C.Leaf("aggregate", bb, st["rv"])]
-                if any(l.kind == "aggregate" and l.data["agg"].get("variant") == want for l in lv):
-                    ctx.violation(["cli-default-mode", want], "running txtpp without a subcommand can select Mode::%s" % want, site=ctx.site(ap, bb))
 
 
 @rule("C06", "R06.4", floor=1)
